@@ -180,3 +180,46 @@ LEMMAS = {
                stubs=['FP ops := uninterpreted functions of (rounding mode, operands), shared with the spec', 'randomx_reciprocal_fast := uninterpreted rcp (R1/R2)', 'x86 semantics: engine/x86sem.py (validated natively)'],
                outside='the CPU\'s IEEE arithmetic; x86sem model correctness beyond its native validation'),
 }
+
+# ------------------------------------------------------------------------------------------------ X0: native validation of the x86 model
+def run_X0(ctx, case):
+    """the bytes the real emitter produces for concrete instruction words, executed on the host CPU and by x86sem (concrete mode) from the same
+    random state: every register, MXCSR control bits and the scratchpad must agree.  Differential test of the *model* (trusted base), not of RandomX."""
+    import random
+    from engine import x86native
+    q = Q(10); mod = Module(ctx['ll']['jit']); L = jit_layout(mod); rnd = random.Random(ctx.get('seed', 0) * 1000 + case['opcode']); ar = x86native.Arena(ctx.get('seed', 0))
+    opcode = case['opcode']; kind = [k for k in P.ORDER if P.RANGE[k][0] <= opcode < P.RANGE[k][1]][0]; runs = 0; samples = []
+    for (d, s_) in case['pairs']:
+        for t in range(case['states']):
+            imm = rnd.choice([rnd.getrandbits(32), rnd.getrandbits(8), 0xffffff00 | rnd.getrandbits(8), 1 << rnd.randint(0, 31), 0])
+            if kind == 'IMUL_RCP' and imm & (imm - 1) == 0: imm = 3 + 2 * rnd.getrandbits(20)
+            modb = rnd.getrandbits(8); v2 = rnd.getrandbits(1)
+            it = Interp(mod)
+            def rcp(s, a):
+                dv = a[0]; x = (1 << 63) // dv; r_ = (1 << 63) % dv; sh = dv.bit_length(); return ((x << sh) + ((r_ << sh) // dv)) & ((1 << 64) - 1)
+            it.hooks['randomx_reciprocal_fast'] = rcp
+            BASE = 0
+            J = new_jit(it, mod, L, [0xffffffff] * 8, [], BASE, flag_v2() if v2 else 0, code_size=4096)
+            ins = it.mem.alloc(8, 'ins')
+            for k, v in enumerate((opcode, d, s_, modb)): it.mem.store(Ptr('ins', k), v, 1)
+            it.mem.store(Ptr('ins', 4), imm, 4)
+            it.call(GENCODE, [J, ins, 0])
+            end = it.mem.load(Ptr('J', L['codePos']), 4); code = [it.mem.load(Ptr('code', k), 1) for k in range(end)]
+            if not all(is_c(b) for b in code): raise Exception('symbolic byte from concrete instruction')
+            st0 = x86native.random_state(ar, rnd)
+            if kind == 'CBRANCH': pass
+            diffs = x86native.compare(ar, code, st0) + ['(symbolic mode) ' + x for x in x86native.compare_symbolic(ar, code, st0)]; runs += 2
+            q.n += 1; q.unsat += (not diffs); q.sat += bool(diffs)
+            if diffs: q.failed.append(('x86sem disagrees with the host CPU on %s dst=%d src=%d imm32=%#x mod=%#x [%s]: %s' % (kind, d, s_, imm, modb, ' '.join('%02x' % b for b in code), diffs[:3]), {}))
+            if len(samples) < 2: samples.append(' '.join('%02x' % b for b in code))
+    r = result('X0', '%s (opcode %d)' % (kind, opcode), q, paths=runs, detail='%d native/model runs agree; e.g. %s' % (runs, samples))
+    if q.failed: r['status'] = 'error'; r['error'] = 'x86 model validation failed (engine defect, not a property violation): ' + str(q.failed[0][0])[:400]
+    return r
+
+def jobs_X0(ctx):
+    pairs = [(0, 1), (4, 4), (5, 3), (7, 4), (3, 5)] if ctx['tier'] == 'quick' else [(d, s_) for d in range(8) for s_ in range(8)]
+    return [dict(opcode=P.RANGE[k][0], pairs=pairs, states=3 if ctx['tier'] == 'quick' else 5) for k in P.ORDER]
+
+LEMMAS['X0'] = dict(jobs=jobs_X0, run=run_X0, units=['jit'], functions=['engine/x86sem.py (the model)', 'JitCompilerX86::generateCode (source of the byte sequences)'],
+    doc='validation of the trusted x86 model: code emitted for concrete instruction words runs on the host CPU and in x86sem (concrete mode) from the same random state; registers, MXCSR and scratchpad agree',
+    bound='29 instruction kinds x 5 register pairs x 3 random states (quick) / 64 pairs x 5', symbolic='(none: concrete differential test of the model)', stubs=[])
